@@ -236,4 +236,4 @@ def _obligations():
 
 
 def obligations():
-    return _obligations() + [labels_obligation("C16"), selectors_obligation("C16"), mutations_obligation("C16"), effects_obligation("C16"), plumbing_obligation("C16"), overrides_obligation("C16"), options_obligation("C16"), handlers_obligation("C16")]
+    return _obligations() + [labels_obligation("C16"), selectors_obligation("C16"), mutations_obligation("C16"), loopstate_obligation("C16"), effects_obligation("C16"), plumbing_obligation("C16"), overrides_obligation("C16"), options_obligation("C16"), handlers_obligation("C16")]
